@@ -441,7 +441,14 @@ func (idx *KVIndex) FieldTermNumberMax(field string) float64 {
 	return min
 }
 
-//FieldTermNumberRange gets all number term counts between min and max
+// numberTermSuccessor returns the number term whose bytes sort directly behind term
+func numberTermSuccessor(term []byte) []byte {
+	out := make([]byte, 8)
+	binary.BigEndian.PutUint64(out, binary.BigEndian.Uint64(term)+1)
+	return out
+}
+
+//FieldTermNumberRange gets all number term counts between min (included) and max (excluded)
 func (idx *KVIndex) FieldTermNumberRange(field string, min, max float64) chan KVTermCount {
 
 	minBytes, _ := GetTermBytes(min)
@@ -456,15 +463,18 @@ func (idx *KVIndex) FieldTermNumberRange(field string, min, max float64) chan KV
 		defer close(out)
 
 		if min < 0 {
-			minPrefix := EntryValuePrefix(field, TermNumber, minBytes)
-			maxPrefix := EntryValuePrefix(field, TermNumber, maxBytes)
-			if max > 0 {
+			//negative terms sort by magnitude. The range is [min, max) as for the
+			//non-negative scan below: start behind the entries of min itself, stop
+			//behind those of max; everything non-negative is left to the second scan
+			minPrefix := EntryValuePrefix(field, TermNumber, numberTermSuccessor(minBytes))
+			maxPrefix := EntryValuePrefix(field, TermNumber, numberTermSuccessor(maxBytes))
+			if max >= 0 {
 				maxPrefix = EntryValuePrefix(field, TermNumber, floatPosInfBytes)
 			}
 			idx.KV.View(func(it kvi.KVIterator) error {
 				var count uint64
 				last := math.Inf(1)
-				for it.SeekReverse(minPrefix); it.Valid() && bytes.Compare(maxPrefix, it.Key()) < 0; it.Next() {
+				for it.SeekReverse(minPrefix); it.Valid() && bytes.Compare(maxPrefix, it.Key()) <= 0; it.Next() {
 					_, _, term, _ := EntryKeyParse(it.Key())
 					val := GetBytesTerm(term, TermNumber).(float64)
 					if val != last {
